@@ -321,7 +321,8 @@ func init() {
 				LockAfter:    []int{1, 2, 3, 5}[r.Intn(4)],
 				LockWindow:   pickD(r, 3*time.Nanosecond, 30*time.Second, 5*time.Minute, 2*time.Hour),
 				LockDuration: pickD(r, 2*time.Nanosecond, 10*time.Second, time.Minute, 12*time.Hour, 12*time.Hour, time.Duration(math.MaxInt64)),
-				OneTimeTOTP:  r.Intn(2) == 0, LogoutMethod: "DELETE", Err500: r.Intn(2) == 0}
+				OneTimeTOTP:  r.Intn(2) == 0, LogoutMethod: "DELETE", Err500: r.Intn(2) == 0,
+				CustomHasher: unit%4 == 0} // a quarter of the units: the application's own hasher with its own error values
 			switch r.Intn(4) {
 			case 0:
 				cfg.TwoFA = []string{"totp"}
